@@ -696,3 +696,208 @@ func checkCacheFillCompletion(w *World, r *Run) {
 		r.Bad(rule, "cache tee readers", 0, "no streaming cache fill reader found (anchor lost)")
 	}
 }
+
+// checkTxFinalization: the controller is marked finalized only after the driver commit
+// succeeded; otherwise a failed COMMIT makes Rollback skip the rollback hooks (which restore
+// renamed part files).
+func checkTxFinalization(w *World, r *Run) {
+	rule := r.Rule("finalized-only-after-a-successful-commit", "F1",
+		"in TxController.Commit the store finalized = true is dominated by the nil-error edge of the driver's Commit; in Rollback it happens after the driver rollback and before the hooks run exactly once", 2)
+	fn := w.SSAFunc(relDB, "TxController.Commit")
+	if fn == nil {
+		r.Anchor(rule, "TxController.Commit")
+		return
+	}
+	var drv *ssa.Call
+	allInstrs(fn, false, func(_ *ssa.Function, ins ssa.Instruction) {
+		if c, ok := ins.(*ssa.Call); ok {
+			if f := calleeObj(c); f != nil && f.Pkg() != nil && f.Pkg().Path() == "database/sql" && f.Name() == "Commit" {
+				drv = c
+			}
+		}
+	})
+	good, n := drv != nil, 0
+	allInstrs(fn, false, func(_ *ssa.Function, ins ssa.Instruction) {
+		v, ok := isFieldStore(ins, "finalized")
+		if !ok {
+			return
+		}
+		if b, isb := boolConst(v); !isb || !b {
+			return
+		}
+		n++
+		okEdge := false
+		for _, f := range factsAt(ins.Block()) {
+			if f.Kind == IsNil && drv != nil && sliceContains(f.Val, false, func(x ssa.Value) bool { return x == ssa.Value(drv) }) {
+				okEdge = true
+			}
+		}
+		if !okEdge {
+			good = false
+		}
+	})
+	r.Check(good && n > 0, rule, "TxController.Commit finalizes only after the driver commit succeeded", fn.Pos(), "finalized = true on the err == nil edge of tx.Commit()", "the controller is marked finalized before (or regardless of) the driver commit: when COMMIT fails, Rollback returns early and no rollback hook runs — part files renamed away by pre-commit hooks stay missing although the database rolled back")
+	if rb := w.SSAFunc(relDB, "TxController.Rollback"); rb != nil {
+		// hooks run only on the not-yet-finalized path
+		ok := false
+		for _, b := range rb.Blocks {
+			for _, ins := range b.Instrs {
+				if v, isSt := isFieldStore(ins, "finalized"); isSt {
+					if bv, isb := boolConst(v); isb && bv {
+						for _, f := range factsAt(b) {
+							if nm, _ := fieldLoadName(f.Val); nm == "finalized" && f.Kind == IsFalse {
+								ok = true
+							}
+						}
+					}
+				}
+			}
+		}
+		r.Check(ok, rule, "TxController.Rollback runs its hooks once, on the not-finalized path", rb.Pos(), "finalized checked false, then set, then hooks", "rollback hooks can run twice or after a successful commit")
+	} else {
+		r.Anchor(rule, "TxController.Rollback")
+	}
+}
+
+// checkRangeOverlapTests: createRangeReader opens exactly the parts that overlap the
+// requested half-open range.
+func checkRangeOverlapTests(w *World, r *Run) {
+	rule := r.Rule("only-overlapping-parts-are-opened", "F7",
+		"createRangeReader skips a part when rangeStart >= partEnd and stops when rangeEnd <= partStart (half-open intervals): a part that ends exactly where the range starts — in particular an empty part — is not opened", 2)
+	fn := w.SSAFunc(relMP, "metadataPartStorage.createRangeReader")
+	if fn == nil {
+		r.Anchor(rule, "metadataPartStorage.createRangeReader")
+		return
+	}
+	isPartEnd := func(v ssa.Value) bool {
+		bo, ok := v.(*ssa.BinOp)
+		return ok && bo.Op == token.ADD && derivesFromFieldOf(bo.Y, "Size", nil)
+	}
+	skipOK, stopOK := false, false
+	allInstrs(fn, false, func(_ *ssa.Function, ins ssa.Instruction) {
+		bo, ok := ins.(*ssa.BinOp)
+		if !ok {
+			return
+		}
+		// only comparisons that feed an If whose true edge continues/breaks the part loop
+		switch {
+		case isPartEnd(bo.Y) && (bo.Op == token.GEQ || bo.Op == token.GTR):
+			if bo.Op == token.GEQ {
+				skipOK = true
+			}
+		case isPartEnd(bo.X) && (bo.Op == token.LEQ || bo.Op == token.LSS):
+			if bo.Op == token.LEQ {
+				skipOK = true
+			}
+		}
+		if phi, isPhi := bo.Y.(*ssa.Phi); isPhi && phi.Comment == "partsSizeUntilNow" && (bo.Op == token.LEQ || bo.Op == token.LSS) {
+			if bo.Op == token.LEQ {
+				stopOK = true
+			}
+		}
+	})
+	r.Check(skipOK, rule, "createRangeReader skips parts that end at or before the range start", fn.Pos(), "rangeStart >= partEnd → skip", "a part ending exactly at the range start is opened with an empty window: for an empty part (which the SQL part store does not materialise) the read of an acknowledged object fails with 'part not found'")
+	r.Check(stopOK, rule, "createRangeReader stops at parts that begin at or after the range end", fn.Pos(), "rangeEnd <= partStart → stop", "a part beginning exactly at the range end is opened")
+}
+
+// checkC02PromotionUnconditional: deleting the current version by id promotes the next
+// remaining version whatever it is.
+func checkC02PromotionUnconditional(w *World, r *Run) {
+	rule := r.Rule("deleting-the-current-version-promotes-the-next", "F1",
+		"in sqlMetadataStore.DeleteObject every success path on which FindLatestObjectByBucketNameAndKeyExcludingID returned a row saves that row with IsLatest = true (delete markers included)", 1)
+	fn := w.SSAFunc(relSQLStore, "sqlMetadataStore.DeleteObject")
+	if fn == nil {
+		r.Anchor(rule, "sqlMetadataStore.DeleteObject")
+		return
+	}
+	var find *ssa.Call
+	allInstrs(fn, false, func(_ *ssa.Function, ins ssa.Instruction) {
+		if c, ok := ins.(*ssa.Call); ok && isCallNamed(c, "FindLatestObjectByBucketNameAndKeyExcludingID") {
+			find = c
+		}
+	})
+	if find == nil {
+		r.Bad(rule, "DeleteObject → FindLatestObjectByBucketNameAndKeyExcludingID", fn.Pos(), "the next version is never looked up after the current one was deleted")
+		return
+	}
+	isSave := func(i ssa.Instruction) bool {
+		c, ok := i.(*ssa.Call)
+		if !ok || !isCallNamed(c, "SaveObject") {
+			return false
+		}
+		return sliceContains(c.Call.Args[len(c.Call.Args)-1], false, func(x ssa.Value) bool { return x == ssa.Value(find) })
+	}
+	blocked := func(d *ssa.BasicBlock, k int) bool {
+		for _, f := range edgeFacts(d, k) {
+			if f.Kind == IsNil && sliceContains(f.Val, false, func(x ssa.Value) bool { return x == ssa.Value(find) }) && !isErrorType(f.Val.Type()) {
+				return true // nothing left to promote
+			}
+			if f.Kind == NonNil && isErrorType(f.Val.Type()) {
+				return true
+			}
+		}
+		return false
+	}
+	leaks := sinksReachable(find, isSave, blocked, isSuccessReturn)
+	latest := false
+	allInstrs(fn, false, func(_ *ssa.Function, ins ssa.Instruction) {
+		if v, ok := isFieldStore(ins, "IsLatest"); ok {
+			if b, isb := boolConst(v); isb && b && sliceContains(ins.(*ssa.Store).Addr, false, func(x ssa.Value) bool { return x == ssa.Value(find) }) {
+				latest = true
+			}
+		}
+	})
+	r.Check(len(leaks) == 0 && latest, rule, "DeleteObject promotes whatever version remains newest", posOf(find), "nextLatest != nil ⇒ IsLatest = true; SaveObject(nextLatest)", "a remaining version is left unpromoted on some path (e.g. when it is a delete marker): no row is current any more, and removing that marker later does not bring the older live version back")
+}
+
+// checkSkipIsRelative: SkipNBytes moves n bytes forward from the reader's position.
+func checkSkipIsRelative(w *World, r *Run) {
+	rule := r.Rule("skip-seeks-relative-to-the-current-position", "F7",
+		"ioutils.SkipNBytes seeks with io.SeekCurrent (readers handed out by middlewares need not start at offset 0 of the underlying file)", 1)
+	fn := w.SSAFunc("internal/ioutils", "SkipNBytes")
+	if fn == nil {
+		r.Anchor(rule, "ioutils.SkipNBytes")
+		return
+	}
+	n, good := 0, true
+	allInstrs(fn, false, func(_ *ssa.Function, ins ssa.Instruction) {
+		c, ok := ins.(ssa.CallInstruction)
+		if !ok || !c.Common().IsInvoke() || c.Common().Method.Name() != "Seek" {
+			return
+		}
+		n++
+		if k, isc := intConst(c.Common().Args[1]); !isc || k != 1 {
+			good = false
+		}
+	})
+	r.Check(good && n > 0, rule, "SkipNBytes seeks from the current position", fn.Pos(), "Seek(n, io.SeekCurrent)", "the skip is an absolute seek: a part stream that does not start at offset 0 of its file (the compression middleware hands out verbatim parts positioned behind its header) is read from the wrong offset — the range response has the right length but the wrong bytes")
+}
+
+// checkRecoveryVisitsEveryEntry: the start-up recovery of the filesystem part store does not
+// stop at the first entry it repaired.
+func checkRecoveryVisitsEveryEntry(w *World, r *Run) {
+	rule := r.Rule("recovery-visits-every-leftover", "F1",
+		"inside the directory loop of recoverInterruptedTransactions every return reports an error (a repaired entry continues with the next one)", 1)
+	fn := w.SSAFunc(relFSStore, "filesystemPartStore.recoverInterruptedTransactions")
+	if fn == nil {
+		r.Anchor(rule, "filesystemPartStore.recoverInterruptedTransactions")
+		return
+	}
+	var loopBody *ssa.BasicBlock
+	for _, b := range fn.Blocks {
+		if strings.Contains(b.Comment, "rangeindex.body") && loopBody == nil {
+			loopBody = b
+		}
+	}
+	bad := ""
+	for _, ret := range returnsOf(fn) {
+		if loopBody == nil || !(loopBody == ret.Block() || loopBody.Dominates(ret.Block())) {
+			continue
+		}
+		ei := errorResultIndex(fn)
+		if ei < 0 || !definitelyNonNilError(retResult(ret, ei), ret.Block()) {
+			bad = w.Pos(posOf(ret))
+		}
+	}
+	r.Check(loopBody != nil && bad == "", rule, "recoverInterruptedTransactions keeps going after repairing an entry", fn.Pos(), "only error returns inside the loop", "the loop returns at "+bad+" without an error: after the first repaired backup the remaining leftovers of the same interrupted transaction are not restored — a multi-part object whose deletion never committed stays unreadable")
+}
